@@ -192,6 +192,12 @@ func judgeC02(hi *Hist) []*Violation {
 		}
 		return []*Violation{viol("C02", "hang", "%v: valid calls never returned\n%s%s", res.Outcome, stuckOps(hi), describeLive(res))}
 	}
+	// Add returns a bar or an error, never neither or both
+	for _, op := range hi.Ops {
+		if op.Op.K == h.OpAdd && op.Ret >= 0 && (op.RS == "nil,nil" || strings.Contains(op.RS, "nonnil")) {
+			return []*Violation{viol("C02", "add-result", "Add returned %s: the caller gets neither a bar nor an error (or both), the first use of the bar panics", op.RS)}
+		}
+	}
 	if hi.WaitOut < 0 {
 		return nil
 	}
